@@ -29,7 +29,7 @@ def run(ctx: fw.Ctx):
         "values are opaque unless attribute sets or identifiers; FunctionCall-valued bindings (the "
         "_resolve_inherited_binding fallback) are outside the model",
     ]
-    stride, nrand, maxops = (6, 700, 8) if ctx.quick else (1, 12000, 30)
+    stride, nrand, maxops = (3, 700, 8) if ctx.quick else (1, 12000, 30)
     hists = ep.build_stream(ctx, stride, nrand, maxops)
     ec.correspond(ctx, hists)
     observe(ctx, hists)
